@@ -1322,6 +1322,9 @@ func runC17(c *core.Ctx) {
 		}
 		idx++
 	}
+	if c.Shard == 0 {
+		c17Concurrent(c, cases)
+	}
 }
 
 func c17One(c *core.Ctx, cs c17case) {
